@@ -26,6 +26,10 @@ CHECKS = {
    "explicit-state BFS over create/write/to-WAL/drop/re-create histories with connected, lagging, restarting and late-joining replicas",
    "After every event: a drop advances the TXID by one with exactly the empty checksum; database, journal, wal and shm are gone on the primary and on every connected replica (also after restart or late join); directory listings hide the name on every node; re-creation continues the TXID sequence and replicates; chain monitor across the tombstone.",
    "Same lab as C01; crash points inside the drop belong to C05.", "§4 C15"),
+ "C18": ("model_checking", "E1-inputs",
+   "exhaustive input enumeration of the real codecs: all values x all <=3-piece read splits x all proper prefixes x hostile length fields, allocation measured in rlimit-ed worker subprocesses",
+   "Every frame type with names {empty, a, 255 B, all byte values, 64 KiB} and six integer values, six position maps and 120 chunk writer/reader configurations around the 65535 limit are encoded by the real writers and decoded by the real readers under every split into at most three reads (complete for encodings up to 64 bytes, boundary-focused above) and one byte at a time; every proper prefix must be an error and never a clean EOF; every length field is replaced by five hostile values and the decoder's allocation must stay within 1 MiB + 64 x bytes received; ReadFullAt is run over every short-read/EOF script for buffers up to 4.",
+   "Random byte strings are replaced by exhaustive families. Go runtime MemStats trusted for allocation measurement.", "§4 C18"),
  "C02": ("model_checking", "E1-programs",
    "exhaustive enumeration of rollback-journal pager programs executed on the real store through the FUSE handlers; every LTX decoded and applied to a reference image",
    "All single-transaction pager programs of the enumerated shape space (modified set x new size x spill points x sync mode x finalisation x outcome) from seven start sizes straddling the 256-page checksum blocks, and all chains of two (thorough: three) over a core of shapes, are executed; after each the position delta, the decoded LTX applied to the previous reference image, pre/post checksums, the tx event, the -pos file, the image read back through a page cache and the C04/C09 monitors are checked.",
